@@ -1,4 +1,5 @@
 import Clikit.Model.Run
+import Clikit.Model.Wiring
 import Clikit.Lemmas.App
 import Clikit.Lemmas.RunListeners
 import Clikit.Props.C12
@@ -701,5 +702,93 @@ example (l : Listener) : orderOf [⟨preHandle, 0, l⟩] = [l] := by
   rfl
 
 end Listeners
+
+/-! ## How the handler is wired to the command (`Model/Wiring.lean`)
+
+`set_handler` takes the handler itself or anything that can be called to build it (a function, the handler class, a
+partial, an object with `__call__`), `set_handler_method` the name of the method to invoke.  The driver entries
+`c04.run` / `c04.run_regs` take the wiring of a case and answer with `runWired`. -/
+section Wiring
+
+/-- **However the handler is wired, the run is the run of that handler**: a handler instance, and every lazy
+factory that builds it (a function, the handler class itself, a partial, an object that can be called) give
+exactly the run of the run model for the handler's outcome - same status, report, escape and number of
+invocations; so every theorem about `run` (status_range, handler_once, run_contained, ...) holds for it. -/
+theorem wired_handler_runs (debug : Bool) (resolved : Except Exc Unit) (ls : List Listener) (o : Outcome)
+    (render : Exc → Bool) :
+    runWired debug resolved ls (.object (.handler o)) render = run debug resolved ls o render ∧
+    runWired debug resolved ls (.factory (.ok (.handler o))) render = run debug resolved ls o render := by
+  constructor <;> simp [runWired, wiredResult, Stored.call, Stored.target]
+
+/-- the handler is invoked exactly once iff the line resolved, no pre-handle listener handled the event or failed,
+and the wiring reaches an object with the handler method; never more than once -/
+theorem wired_handler_once (debug : Bool) (resolved : Except Exc Unit) (ls : List Listener) (s : Stored)
+    (render : Exc → Bool) :
+    (runWired debug resolved ls s render).handlerCalls ≤ 1 ∧
+    ((runWired debug resolved ls s render).handlerCalls = 1 ↔
+      (resolved = .ok () ∧ dispatchPre ls none = .ok none ∧ ∃ o, s.target = .ok (.handler o))) := by
+  have h := handler_once debug resolved ls s.call.1 render
+  have hc : s.call.2 = 1 ∧ (∃ o, s.target = .ok (.handler o)) ∨ s.call.2 = 0 ∧ ¬ (∃ o, s.target = .ok (.handler o)) := by
+    unfold Stored.call
+    cases ht : s.target with
+    | error e => right; simp
+    | ok t => cases t with
+      | handler o => left; simp
+      | broken e => right; simp
+  simp only [runWired, wiredResult]
+  rcases hc with ⟨h1, h2⟩ | ⟨h1, h2⟩
+  · rw [h1, Nat.mul_one]
+    exact ⟨h.1, by rw [h.2]; simp [h2]⟩
+  · rw [h1, Nat.mul_zero]
+    exact ⟨Nat.zero_le _, by simp [h2]⟩
+
+/-- **A command without a usable handler is contained like any failing handler**: nothing set, a factory that
+raises or builds an object without the handler method - when the line resolved and no listener took over, the
+run ends in status 1 with a report (the renderer working), nothing escapes and no handler code ran -/
+theorem wired_unusable_contained (debug : Bool) (ls : List Listener) (s : Stored) (render : Exc → Bool)
+    (hr : ∀ e, render e = true) (hd : dispatchPre ls none = .ok none)
+    (hs : ¬ ∃ o, s.target = .ok (.handler o))
+    (hk : ∀ e, s.call.1 = .raise e → e.keyboardInterrupt = false) :
+    (runWired debug (.ok ()) ls s render).status = some 1 ∧
+    (runWired debug (.ok ()) ls s render).reported = true ∧
+    (runWired debug (.ok ()) ls s render).escaped = none ∧
+    (runWired debug (.ok ()) ls s render).handlerCalls = 0 := by
+  obtain ⟨e, he⟩ : ∃ e, s.call.1 = .raise e := by
+    unfold Stored.call
+    cases ht : s.target with
+    | error e => exact ⟨e, rfl⟩
+    | ok t => cases t with
+      | handler o => exact absurd ⟨o, ht⟩ hs
+      | broken e => exact ⟨e, rfl⟩
+  have hke := hk e he
+  have hat : (attempt debug (.ok ()) ls s.call.1).1 = .error e := by
+    simp [attempt, handle, doHandle, hd, he, hke]
+  have h1 := exception_reported debug (.ok ()) ls s.call.1 render hr e hat
+  have h2 := (run_contained debug (.ok ()) ls s.call.1 render hr).1
+  have h3 := (wired_handler_once debug (.ok ()) ls s render)
+  refine ⟨h1.1, ?_, h2, ?_⟩
+  · have := h1.2
+    simp only [hke, Bool.not_false] at this
+    exact this
+  · have : (runWired debug (.ok ()) ls s render).handlerCalls ≠ 1 := fun h => hs (h3.2.mp h).2.2
+    omega
+
+/-- a handler class given as the factory, its `handle` returns 300: status 255, one invocation -/
+example : let r := runWired false (.ok ()) [] (.factory (.ok (.handler (.ret { falsy := false, toInt := .ok 300 })))) (fun _ => true)
+    r.status = some 255 ∧ r.handlerCalls = 1 ∧ r.reported = false := by decide
+/-- no handler set: status 1 with a report, nothing invoked; a factory that raises: the same -/
+example : let r := runWired false (.ok ()) [] (.unset ⟨false, false, 98⟩) (fun _ => true)
+    r.status = some 1 ∧ r.handlerCalls = 0 ∧ r.reported = true ∧ r.escaped = none := by decide
+/-- the same through the theorem, all hypotheses discharged -/
+example : (runWired false (.ok ()) [] (.unset ⟨false, false, 98⟩) (fun _ => true)).status = some 1 :=
+  (wired_unusable_contained false [] (.unset ⟨false, false, 98⟩) _ (fun _ => rfl) rfl (by simp [Stored.target])
+    (by intro e h; simp only [Stored.call, Stored.target] at h; cases h; rfl)).1
+example : let r := runWired true (.ok ()) [.pass] (.factory (.error ⟨false, false, 97⟩)) (fun _ => true)
+    r.status = some 1 ∧ r.handlerCalls = 0 ∧ r.reported = true := by decide
+/-- a listener that handled the event: the wiring is never looked at -/
+example : let r := runWired false (.ok ()) [.handled { falsy := false, toInt := .ok 5 } true] (.unset ⟨false, false, 98⟩) (fun _ => true)
+    r.status = some 5 ∧ r.handlerCalls = 0 ∧ r.reported = false := by decide
+
+end Wiring
 
 end Clikit.Props.C04
